@@ -94,27 +94,37 @@ impl UCICommand {
             return Err("No position specified!".to_string());
         }
 
-        let kind = match args[0] {
-            "startpos" => PositionKind::StartPos,
+        // A FEN has four to six fields; it ends where the move list begins.
+        let (kind, moves_idx) = match args[0] {
+            "startpos" => (PositionKind::StartPos, 1),
             "fen" => {
-                if args.len() < 7 {
+                let fen_len = args[1..]
+                    .iter()
+                    .take(6)
+                    .position(|&arg| arg == "moves")
+                    .unwrap_or_else(|| (args.len() - 1).min(6));
+                if fen_len < 4 {
                     return Err("No FEN specified!".to_string());
                 }
-                PositionKind::Fen {
-                    fen: args[1..7].join(" "),
-                }
+                (
+                    PositionKind::Fen {
+                        fen: args[1..=fen_len].join(" "),
+                    },
+                    fen_len + 1,
+                )
             }
             _ => return Err(format!("Unrecognized position command: {}", args[0])),
         };
 
-        let moves = match kind {
-            PositionKind::StartPos if args.len() > 2 && args[1] == "moves" => {
-                Some(args[2..].iter().map(ToString::to_string).collect())
-            }
-            PositionKind::Fen { .. } if args.len() > 8 && args[7] == "moves" => {
-                Some(args[8..].iter().map(ToString::to_string).collect())
-            }
-            _ => None,
+        let moves = if args.len() > moves_idx + 1 && args[moves_idx] == "moves" {
+            Some(
+                args[moves_idx + 1..]
+                    .iter()
+                    .map(ToString::to_string)
+                    .collect(),
+            )
+        } else {
+            None
         };
 
         Ok(Self::Position { kind, moves })
